@@ -120,8 +120,20 @@ func freshSnapshot(lab *Lab) world.Snapshot {
 // junkify inserts duplicated, badly signed and foreign-round messages into a log.
 func junkify(rec *world.Recording, L []storage.Message, foreignReinit bool) []storage.Message {
 	var out []storage.Message
+	forgedPatches := false
 	for i, m := range L {
 		out = append(out, m)
+		if !foreignReinit && m.Event == "event_dkg_commit_confirm_received" && !forgedPatches && i+1 < len(L) && L[i+1].Event == "event_dkg_deal_confirm_received" {
+			// (C20's dump) unsigned "self-confirmations" - the one kind of replayed message a
+			// reinitialising node cannot verify - forged before the deals phase: one without sender
+			// and recipient in participant 1's name (a broadcast), one from participant 0 to itself
+			// in participant 1's name; every node of the original ceremony refused both
+			forgedPatches = true
+			sc := requests.DKGProposalDealConfirmationRequest{ParticipantId: 1, Deal: []byte("self-confirm"), CreatedAt: world.T0}
+			out = append(out, storage.Message{DkgRoundID: rec.Round, Event: "event_dkg_deal_confirm_received", Data: world.MustJSON(sc)})
+			n0 := rec.W.Nodes[0].Name
+			out = append(out, storage.Message{DkgRoundID: rec.Round, Event: "event_dkg_deal_confirm_received", Data: world.MustJSON(sc), SenderAddr: n0, RecipientAddr: n0})
+		}
 		if !foreignReinit && i == 1 {
 			// (C20's dump) a forged decline in the last participant's name, signed with another
 			// key: every node of the original ceremony refused it
